@@ -580,6 +580,10 @@ ROUND2 = {
  "C15": " THREE DIFFERENT ARMS FROM THE TEXT (round 2): CliM.runText models main.rs per arm (parse, --lx/--an sorting before building, naive = from_parser + native sections; biodivine = library-side from_parser + Bio.bioGrounded/bioComplete/bioStable/bioStableRep; hybrid = library grounding, dump, bridge, native sections) with PrintableInterpretation's rendering; "
         "cli_text_faithful (every well-formed text, every mode/flags/sorting/heuristic: exit 0, one block per requested implemented section in documented order, each block a permutation of the specification's answer), three_modes_print_same_sets (now between three different computations), line_format / mark_is_value, lx_prints_in_bytewise_order, "
         "rejects_malformed_text, naive_arm_is_driver_model (the naive arm IS the Cli.run the driver executes against the binary), library_arms_panic_on_special_labels (model-level statement of known finding D6; the library arms carry the hypothesis bioNameOK). The two vacuous theorems of round 1 are deleted.",
+ "C16": " THE SERVICE, NOT ONLY THE LIBRARY (round 2): the server model's environment is instantiated with the concrete library models (SrvC.libEnv, ONE definition shared by the driver and the theorems); parse_task_stores_framework / _error, solve_request_uses_stored_framework, "
+        "solve_task_stores_answer (the write of a solve task stores exactly the library model's answer for the STORED framework under the addressed problem and strategy), write_touches_only_its_target, get_returns_stored, served_answer_for_code (what GET shows under a strategy is the definitional answer for the submitted code, all six strategies), "
+        "storage_roundtrip_identity + solve_after_roundtrip_same (SimplifiedAdf round trip is the identity on ordering, node table and ac), graph_hyp_of_accepted_text (graph hypotheses DERIVED from parser facts), graphs_faithful_under_the_shown_model (all six strategies), "
+        "reachable_results_belong_to_the_code (every state reachable by a deletion/rename-free history of any users in any interleaving; histStale shows the restriction is needed - the D9 mechanism).",
  "C17": " Round 2: touches split into acts-for and mentions (touches_split); mentions_only_harmless (register/update/login that merely NAME an existing account leave its data, credential and responses unchanged; the other user gets 409), isolation_mentions_allowed, noop_event_unobservable, stored_uses_request_salt.",
  "C19": " RELAY CHAIN OF ANY LENGTH (round 2): StreamChain - producer, k relays, all interleavings of create/deliver/poll/drop: chain_mirror_prefix, chain_same_node, chain_poll_found, chain_drained_equal, chain_drain_reaches_equal, chain_relay_independent_of_downstream, chain_after_drop; one_relay_is_chain2 links the round-1 theorems.",
 }
